@@ -82,7 +82,7 @@ OwnBases == {
         [k |-> "variables", text |-> "@variables { c: 1px; w: 2px }", vars |-> <<[name |-> "c", value |-> Px("1px")], [name |-> "w", value |-> Px("2px")]>>],
         Style(<<".c">>, <<D("left", <<Var("var(c)")>>, ""), D("top", <<Var("var(w)")>>, "")>>)>>),
   Base("variables-upper", <<[k |-> "variables", text |-> "@variables { C: red; w: 1px }", vars |-> <<[name |-> "c", value |-> Red], [name |-> "w", value |-> Px("1px")]>>],
-        Style(<<"a">>, <<D("color", <<Var("var(c)")>>, ""), D("left", <<Var("var(w)")>>, "")>>)>>),
+        Style(<<"a">>, <<D("color", <<Var("var(c)")>>, ""), D("left", <<Var("var(w)")>>, ""), D("top", <<Var("var(W)")>>, "")>>)>>),
   Base("spellings", <<[k |-> "charset", enc |-> "utf-8"], Import("x.css", "string", <<>>, "none"), Ns("p", "u"),
         Style(<<"p|a">>, <<D("color", <<C("COLOR_VALUE", "#abc")>>, ""), D("left", Px("0.5px"), "important"), D("top", Px("-0.5em"), ""), D("right", Px("-1.5px"), ""), D("bottom", Px("-12.25em"), ""),
                            D("width", <<C("PERCENTAGE", "0.5%")>>, ""), D("margin", <<C("NUMBER", "0"), C("DIMENSION", "1.5px"), C("DIMENSION", "10px")>>, "")>>),
